@@ -132,6 +132,8 @@ def cycle(res, X, origin, desc):
         return
     res.count("files_loadable")
     res.hist("loadable_by_origin", origin)
+    if res.counters["files_loadable"] % 211 == 1:
+        res.sample({"origin": origin, "bytes": len(X), "mutation": desc.get("mutation"), "source": desc.get("origin"), "cycles": 4})
     res.case(X)
     prev = None
     for n in range(1, 5):
@@ -232,8 +234,7 @@ def run_shard(spec_, res):
         from ._repo_suite import ambient_under_repo_tests
         ambient_under_repo_tests(res, PROPERTY, ["save_is_pure"])
     if spec_["shard"] == 0:
-        res.sample({"origin": "fixture:amplifier.sunsynth", "mutation": "cval", "example": "second CVAL (balance, range -128..128) replaced by stored value 300",
-                    "cycles": 4})
+        pass
 
 
 def replay(case, res):
